@@ -149,6 +149,8 @@ def run(ctx):
     ctx.assume("gin's ctx.JSON renders with encoding/json.Marshal (default build tags); the API decodes with jsonwrapper.Decode into conf.Optional*")
     ctx.assume("Core applies an edit as Clone; Patch*/ReplacePath; Validate (transcribed from core.go doAPIConfig*); the harness applies onto an "
                "independently built equal configuration instead of a Clone")
+    ctx.assume("equality of configurations = equality of a canonical rendering of the Go values (address/mask byte lengths, nil vs set "
+               "pointers, map contents) AND reflect.DeepEqual (what Core's reload comparisons use), except nil vs empty lists")
     ctx.assume("string parameters are valid UTF-8 (encoding/json replaces invalid bytes)")
     ctx.assume("a nil list and an empty list are the same configuration value: every consumer reads both as 'no entries' and the API "
                "renders both as []; before/after are compared with nil[] rendered as [] (nil vs non-nil POINTERS stay distinct)")
